@@ -130,6 +130,15 @@ Theorem C17_ser_bdd_ordered : forall p, rows_ordered (fst (bdd_serialize p)) = t
 Proof. exact ser_bdd_ordered. Qed.
 Print Assumptions C17_ser_bdd_ordered.
 
+(* the table holds exactly the nodes below p: read back as trees, its rows are the regular
+   sub-nodes of p, each exactly once (as many rows as distinct reachable nodes) *)
+Theorem C17_ser_bdd_nodes : forall p,
+  exists trees, unfold_rows (fst (bdd_serialize p)) [] = Some trees /\
+    length trees = length (fst (bdd_serialize p)) /\ NoDup trees /\
+    forall k, In k trees <-> In k (subnodes p).
+Proof. exact ser_bdd_nodes. Qed.
+Print Assumptions C17_ser_bdd_nodes.
+
 (* the same for SDDSerializer (binary nodes written as two-element decisions on a literal,
    complement flags on pointers, literals and constants inline) *)
 Theorem C17_ser_sdd_sem : forall p a,
